@@ -160,13 +160,17 @@ Definition resolved_of (st : state) (n : nat) : option rty :=
 Definition seen_pair (g : list (aty * aty)) (a b : aty) : bool :=
   existsb (fun p => aty_eqb (fst p) a && aty_eqb (snd p) b) g.
 
+Definition same_shape_result (r : tri) : tri := match r with TT => TT | _ => TUnk end.
+
 (* GuardedIsAssignable (types.go:113-153) and X.IsAssignable of the types of the model *)
 Fixpoint asg (fuel : nat) (st : state) (g : list (aty * aty)) (a b : aty) {struct fuel} : tri :=
   match fuel with
   | O => TUnk
   | S f =>
     if same_ptr a b then TT
-    else match b with
+    else
+    let r :=
+    match b with
     | AT (TC1 KNotUndef x) =>                                  (* :122-130 *)
       match asg f st g a (AT x) with
       | TT => TT
@@ -194,7 +198,10 @@ Fixpoint asg (fuel : nat) (st : state) (g : list (aty * aty)) (a b : aty) {struc
       | r => r
       end
     | _ => asg_left f st g a b
-    end
+    end in
+    (* two containers of the same shape may be one and the same Go object (reached twice through the resolved type of
+       an alias: a == b, true at once) or two objects; the model does not know which *)
+    if aty_eqb a b then same_shape_result r else r
   end
 
 with asg_left (fuel : nat) (st : state) (g : list (aty * aty)) (a b : aty) {struct fuel} : tri :=
